@@ -239,10 +239,7 @@ func (m *MClaims) BuildLiteral() (psatoken.IClaims, bool) {
 		if m.ZeroCanon {
 			c.CanonicalProfile = ""
 		}
-		if m.NoMeas != nil {
-			v := uint(*m.NoMeas)
-			c.NoSwMeasurements = &v
-		}
+		setIntField(c, "NoSwMeasurements", m.NoMeas != nil, int64(derefU64(m.NoMeas)))
 		if m.Nonces != nil {
 			if len(*m.Nonces) != 1 {
 				return nil, false
@@ -381,6 +378,12 @@ func (m *MClaims) applySetters(c psatoken.IClaims) error {
 	return nil
 }
 
+func derefU64(p *uint64) uint64 {
+	if p == nil {
+		return 0
+	}
+	return *p
+}
 func deref32(p *int32) int32 {
 	if p == nil {
 		return 0
